@@ -183,7 +183,7 @@ def correspondence(ctx):
               "switch settings; a case (= one message's processing) is non-trivial unless it produced nothing but a plain "
               "reply without any touch; distinct = distinct (sequence of touch kinds since the previous frame, the frame or "
               "outcome that ended it incl. exception class)")
-    n_sessions = ctx.budget(1400, 30000)
+    n_sessions = ctx.budget(1400, 11000)
     lines, impls, meta = [], [], []
     t0 = time.time()
     nmsg = 0
@@ -339,6 +339,62 @@ def _unboxes_to_tuple(pkg):
     return None
 
 
+def _forbidden_objects(s):
+    """objects of the serving process the canary service never hands out, found in the table of references lent to the
+    peer: 'obtain a reference to an object that was never sent to that peer'"""
+    import os
+    import types
+    from rpyc.core import protocol
+    out = []
+    for key, slot in list(s.conn._local_objects._dict.items()):
+        obj = slot[0]
+        if obj is s.conn or isinstance(obj, protocol.Connection) or isinstance(obj, types.ModuleType) or obj is os.environ \
+                or obj is sys.modules or obj is protocol.DEFAULT_CONFIG or obj is hw.HITS or obj is rt.REC:
+            out.append("%s (lent as %r)" % (type(obj).__name__, key[0] if type(key) is tuple and key else key))
+    return out
+
+
+def _cross_connection_probe(s, g, r):
+    """two connections of one process: the hostile peer of connection 1 registers a callback with an ordinary
+    publish/subscribe service and queues its answer to it - an exception naming a builtin class; the innocent peer of
+    connection 2 publishes.  Whatever the answer names, connection 2's request must be answered and connection 2 must
+    stay usable."""
+    import builtins
+    from rpyc.core import brine
+    if s.second_phase == "closed" or s.ended or s.conn.closed or s.conn2.closed or not g.held:
+        return None
+    names = sorted(n for n, v in vars(builtins).items() if isinstance(v, type) and issubclass(v, BaseException))
+    cls = r.choice(names + ["KeyboardInterrupt", "SystemExit", "GeneratorExit", "BaseException"] * 8)
+    root1 = g.held[0]
+    got = s.burst([("v", (1, 9001, (8, (2, ((3, root1), (1, "subscribe"), (2, ((4, ("builtins.function", 990, 1)),)))))))])
+    if not any(type(m) is tuple and m[:2] == (2, 9001) for m in got):
+        return None
+    g.learn(got)
+    nxt = len(g.out_seqs)
+    # what connection 1's peer has ready for the next question it is asked
+    payload = (("builtins", cls), (), (), "tb")
+    s.srv.inbox += hw.frame(brine.dump((3, nxt, payload)))
+    saved, rt.REC = rt.REC, None
+    try:
+        p2 = s.conn2._channel.stream.peer
+        p2.write(hw.frame(brine.dump((1, 9002, (8, (2, ((3, s.other_ids[0]), (1, "publish"), (1, (5,)))))))))
+        escaped = None
+        try:
+            while s.conn2._channel.stream.inbox and not s.conn2.closed:
+                s.conn2.serve(0)
+        except BaseException as ex:  # noqa
+            escaped = ex
+        answers = [m for m in s._drain(p2) if type(m) is tuple and len(m) == 3 and m[0] in (2, 3) and m[1] == 9002]
+    finally:
+        rt.REC = saved
+    if escaped is not None or not answers or s.conn2.closed:
+        return ("an exception reply naming builtins.%s, sent by the peer of connection 1 in answer to a callback, %s on connection 2 "
+                "(another client's connection): its request was %s" % (
+                    cls, "made %s escape serve()" % type(escaped).__name__ if escaped is not None else "caused damage",
+                    "answered" if answers else "never answered"))
+    return None
+
+
 def _must_refuse(m):
     """the repaired handlers' duty, read off the message we are about to send: HANDLE_DEL with a count that is not an
     exact int, HANDLE_CALL / HANDLE_CALLATTR with args or kwargs that are not exact tuples -> (why, ) or None"""
@@ -477,10 +533,25 @@ def oracle_session(seed, index, n_bursts=None):
                         problems.append("after %s: state writes %r, service state %r, denied attributes %r, denied calls %r" % (
                             repr(m)[:220], hw.illegitimate_writes(hw.HITS.state_writes)[before_state[0]:][:3], s.svc.state,
                             hw.HITS.denied_attr[before_state[2]:][:3], hw.HITS.denied_call[before_state[3]:][:3]))
+                    if not s.conn.closed:
+                        bad = _forbidden_objects(s)
+                        if bad and len(problems) < 4:
+                            problems.append("after %s the peer holds a reference to an object of the serving process that was never "
+                                            "sent to it: %s" % (repr(m)[:220], ", ".join(bad[:3])))
                     if refuse and (len(hw.HITS.keys_calls), len(hw.HITS.special)) != before:
                         problems.append("%s made the protocol run %r on a held object: %s" % (
                             refuse, (hw.HITS.keys_calls[before[0]:] + hw.HITS.special[before[1]:])[:3], repr(m)[:200]))
                 g.learn(got_all)
+            if not problems:
+                signal.alarm(WATCHDOG_S)
+                try:
+                    cross = _cross_connection_probe(s, g, r)
+                except (rt.Unobservable, SessionHang):
+                    cross = None
+                finally:
+                    signal.alarm(0)
+                if cross:
+                    problems.append(cross)
             ended = s.ended or s.conn.closed
             if not ended:
                 for key, n in n_requests.items():
